@@ -4,11 +4,44 @@ import vlib, rrgen, strmrun
 
 PID = 'C17'
 
+def _shiftday(sh, n):
+    """README reading of SHIFT on a day number (the same as RRule!ShiftDay); used only to tell which input class a rejected case is in"""
+    import datetime as D
+    biz = lambda x: D.date.fromordinal(x).weekday() < 5
+    def step(x, k):
+        while k:
+            s = 1 if k > 0 else -1
+            x = x + s if biz(x + s) else (x + 2 * s if biz(x + 2 * s) else x + 3 * s); k -= s
+        return x
+    a = n + sh[0]; d = sh[2]; b = abs(sh[1]); inv = len(sh) >= 4 and sh[3] == 1
+    if d == 0: return a
+    if biz(a): return step(a, d * b)
+    while not biz(a): a += d
+    return step(a, d * (b - 1 if b > 0 and not inv else b))
+
+def crosses_two_years(r):
+    """does the shift carry some date the rule selects into the year before the previous / after the next one?  Rules whose dates are
+    not plain month-and-day lists are taken to (the finding then covers them as before)"""
+    import datetime as D, calendar
+    sh = r.get('shift', [0, 0, 0, 0])
+    if not (sh[0] or sh[2]): return False
+    if r.get('easter') or r.get('dow') or r.get('yd') or r.get('wk') or r.get('pos') or not r.get('md'): return True
+    mons = r.get('mon') or list(range(1, 13))
+    for y in (2019, 2020, 2021, 2023, 2024):
+        for m in mons:
+            nd = calendar.monthrange(y, m)[1]
+            for d in r['md']:
+                dd = d if d > 0 else nd + 1 + d
+                if not 1 <= dd <= nd: continue
+                t = D.date.fromordinal(_shiftday(sh, D.date(y, m, dd).toordinal()))
+                if abs(t.year - y) >= 2: return True
+    return False
+
 def derive(rec):
     r = rec.get('rule', {}); sh = r.get('shift', [0, 0, 0, 0])
     ea = r.get('easter', [])
     cross = bool(ea) and (min(ea) < -80 or max(ea) > 240)
-    return {'n_easter': len(ea), 'easter_cross_year': cross, 'displaced': bool(sh[0] or sh[2]) or cross, 'freq': r.get('freq'), 'inter': r.get('inter', 1), 'has_shift': bool(sh[0] or sh[2]), 'dshift': sh[0], 'bshift': sh[1], 'bdir': sh[2], 'binv': sh[3] if len(sh) > 3 else 0,
+    return {'crosses_two_years': crosses_two_years(r), 'n_easter': len(ea), 'easter_cross_year': cross, 'displaced': bool(sh[0] or sh[2]) or cross, 'freq': r.get('freq'), 'inter': r.get('inter', 1), 'has_shift': bool(sh[0] or sh[2]), 'dshift': sh[0], 'bshift': sh[1], 'bdir': sh[2], 'binv': sh[3] if len(sh) > 3 else 0,
             'abs_displacement': abs(sh[0]) + abs(sh[1]) * 7 // 5 + (4 if sh[2] else 0) + (max(abs(x) for x in ea) if ea and bool(sh[0] or sh[2]) else 0), 'has_easter': bool(r.get('easter')), 'has_pos': bool(r.get('pos')),
             'has_md': bool(r.get('md')), 'has_dow': bool(r.get('dow')), 'has_mon': bool(r.get('mon')), 'has_yd': bool(r.get('yd')), 'has_wk': bool(r.get('wk')),
             'ntod': max(1, len(r.get('H', []))) * max(1, len(r.get('M', []))) * max(1, len(r.get('S', []))), 'has_count': bool(r.get('count')), 'has_until': bool(r.get('until'))}
@@ -56,6 +89,14 @@ def run(tier, seed):
     for n in ([100, -100, 150, 200, -200, 250, -250, 255, 262, -262, 270, -270, 280, -280, 300, -300, 366, -366] * (4 if th else 1)):
         ds, r, tag = rrgen.shift_case(rnd, kind=rnd.choice(['b', 'b+']), n=n)
         allc.append((ds, r, tag, 70, (2098, 12, 31)))
+    # ... from dates in the second half of the year, so that the moved date lies in the year before (one boundary, the adjacent
+    # candidate set): every tenth N from 256 to 366 backwards (thorough: every N), both spellings
+    for nb in (range(256, 367) if th else list(range(256, 367, 10)) + [276, 277, 365, 366]):
+        for kind in ('b', 'b+'):
+            r = rrgen.blank('YEARLY'); r['mon'] = [rnd.randint(7, 12)]; r['md'] = [rnd.randint(1, 28)]
+            r['shift_text'], r['shift'] = rrgen.shift_variant(rnd, kind, -nb)
+            y0 = rnd.randint(1990, 2030)
+            allc.append(((y0, r['mon'][0], r['md'][0]), r, 'shift:back-a-year', 70, (2098, 12, 31)))
     for _ in range(6000 if th else 260):
         ds, r, tag = rrgen.shift_case(rnd, kind=rnd.choice(['z', 'z', 'db', 'db', 'b', 'd']))
         allc.append((ds, r, tag, rnd.choice([70, 130, 200]), (2098, 12, 31)))
